@@ -57,6 +57,7 @@ struct Op {
   Step rm;           // Remove
   std::string text;  // Deser*
   bool text_valid = true;
+  bool text_dup_keys = false;   // the JSON text repeats a key: values are released and allocated in turn inside the one call
   uint8_t strkind = SK_STD, keykind = SK_STD;
 };
 
@@ -414,14 +415,17 @@ inline Op gen_op(Rng& r, const HistOpt& o, Model& m) {
   else if (w < 94 && o.deser) {
     op.k = r.coin() ? OpK::DeserJson : OpK::DeserMsgPack;
     op.t = hist_target(r, o, m, 2);
-    GenOpt g; g.max_depth = 2; g.max_width = 3; g.budget = 12; g.max_str = 8; g.numeric_strings = false; g.dup_keys = false; g.key_nul = false; g.allow_float = true; g.int64 = o.int64; g.float32_only = o.float32_only;
+    GenOpt g; g.max_depth = 2; g.max_width = 3; g.budget = 12; g.max_str = 8; g.numeric_strings = false; g.key_nul = false;
+    g.allow_float = true; g.int64 = o.int64; g.float32_only = o.float32_only;
+    g.dup_keys = op.k == OpK::DeserJson && r.chance(1, 4);   // JSON texts with repeated keys: the last value wins, at the position of the first
     MVal v = gen_value(r, g);
     if (op.k == OpK::DeserJson) {
       respell_floats(v, r);
       RenderOpt ro; ro.random_ws = r.coin(); ro.escape_weight = 2;
       op.text = render_json(v, ro, &r);
       // values as the library stores them: float literal -> double value; -0 int is 0
-      op.val = v;
+      op.val = dedup_last_wins(v);
+      op.text_dup_keys = g.dup_keys;
       if (r.chance(1, 8)) { op.text = op.text.substr(0, (size_t)r.below(op.text.size() + 1)) + (r.coin() ? "" : "]"); op.text_valid = false; }
     } else {
       MpEncOpt eo; eo.minimal = r.coin();
